@@ -219,6 +219,22 @@ void aslClient(Spec* s)
 	if (s->rangeB >= 0)
 		h["Range"] = s->rangeOpen ? asl::String::f("bytes=%li-", s->rangeB) : asl::String::f("bytes=%li-%li", s->rangeB, s->rangeE);
 	asl::ByteArray body((const asl::byte*)s->body.data(), (int)s->body.size());
+	// the dictionary is the caller's: a request must send what it says at the time of the call, and a client that reuses
+	// it for its next request must find it as it left it (headers the library adds belong to the request, not to the caller)
+	const std::string hBefore = *h.join("\n", ": ");
+	struct HeadersUntouched
+	{
+		const asl::Dic<>& h;
+		const std::string& before;
+		int id;
+		~HeadersUntouched()
+		{
+			std::string after = *h.join("\n", ": ");
+			if (after != before)
+				sim::fail("request_headers", "caller_dictionary_modified", "request %d: the header dictionary passed to the client call came back changed (%zu -> %zu bytes when joined); reused for the next request it would send headers the application never set", id,
+				          before.size(), after.size());
+		}
+	} untouched{h, hBefore, s->id};
 	asl::HttpResponse res;
 	if (s->method == "GET" && s->viaDownload)
 	{
